@@ -98,6 +98,33 @@ CHECKS = {
             "kind, escapes, quoted/indexed/reference path steps.",
             "Trusted: stix2-patterns grammar for validity; the harness's own printer and projection (harness/impl_patterns.py); out-of-vocabulary structure compared by the harness's norm().",
             "DESIGN.md §3.5"),
+    "C01": ("objectmodel", "TLA+ lifecycle model (construct / serialize with defaulted-slot bookkeeping / reparse) checked exhaustively; round trips of model-generated objects under all option sets validated by a trace spec that reads defaults and property order from the frozen specification model",
+            "TLC checks RoundTripEqual and OptionsSameValue on spec/ObjectModel.tla for every input class vector, both custom settings and both default-inclusion settings (203k states). Objects of every type of both "
+            "versions generated from the frozen model (plus custom properties, bundles, a 2.0 container, objects built from other objects' values, registered custom types, top-level and nested registered "
+            "extensions in alternating combinations) are serialized under the 16 option sets and parsed back without naming a version; class identity, ==, byte equality of the second text, equality of option "
+            "sets up to dropped defaults, which properties may be dropped and the pretty key order are judged by TLC against the model.",
+            "Trusted: the frozen model spec/frozen/model2x.json (bootstrapped from the pinned commit, audited by hand, see AUDIT.md) with lenient entries creating no obligation; the lexer states leaf facts only; byte-level JSON is simplejson's.", "DESIGN.md §3.1"),
+    "C02": ("objectmodel", "TLA+ validity predicate over the frozen specification model (SpecValid.tla, with selector addressing from Selectors.tla) evaluated by TLC on every strict-mode output; inputs are the single-point corruptions of model-generated valid objects, enumerated from the model",
+            "TLC checks StrictOutputValid on the lifecycle model and evaluates SpecValid (required, kinds, ranges, enumerations, reference targets, identifier and timestamp classes, no nulls / empty containers, "
+            "inter-property constraints, selectors addressing something) on the lexed serialization of everything strict mode produced from: each valid base, each (type, property, corruption kind) triple "
+            "(removed, every wrong JSON kind, off-by-one ranges, non-finite floats, out-of-vocabulary, 12 identifier spellings, disallowed/unregistered reference types, 7 timestamp spellings, bad hex/base64/hash, "
+            "unknown property, each violated constraint, 7 selector corruptions) through parse(text), parse(dict) and the constructor, and junk inputs.",
+            "Trusted: the frozen model spec/frozen/model2x.json (bootstrapped from the pinned commit, audited by hand, see AUDIT.md) with lenient entries creating no obligation; the lexer states leaf facts only; byte-level JSON is simplejson's.", "DESIGN.md §3.1"),
+    "C03": ("objectmodel", "TLA+ validity predicate decides which generated inputs are specification-valid; strict parsing of those (alone, in a bundle, in a 2.0 container) must succeed and preserve content; trace validation",
+            "TLC checks ValidAccepted on the lifecycle model. For every type of both versions the generator (driven by the frozen model, never the library) produces required-only / everything / each optional property alone / "
+            "random subsets / every enumeration entry, boundary number, falsy value, timestamp spelling (1-9 digits), reference target type, a granular marking on each property, and inter-referencing 2.0 containers; "
+            "TLC first decides from the model whether the input is valid (invalid inputs create no obligation), then requires acceptance, slot-by-slot preservation (timestamps as instants) and that only optional defaults are added.",
+            "Trusted: the frozen model spec/frozen/model2x.json (bootstrapped from the pinned commit, audited by hand, see AUDIT.md) with lenient entries creating no obligation; the lexer states leaf facts only; byte-level JSON is simplejson's.", "DESIGN.md §3.1"),
+    "C04": ("objectmodel", "TLA+ lifecycle model checks strict refusal and flag <=> strict-reparse-refusal for every injection place of the synthetic schema; injection places of every real type are derived from the frozen model and replayed in strict and permissive mode; trace validation",
+            "TLC checks StrictRefuses and FlagIffStrictRefusal exhaustively on spec/ObjectModel.tla. For every type, custom content is injected at every place the frozen model offers (top level, each embedded object, "
+            "registered extensions, unregistered extension keys first/last, library-known-but-non-specification and unknown hash algorithms, references to unregistered and to other-version-only types through "
+            "whitelists / generic categories / blacklists, bundle members, 2.0 container members, a clean control); strict mode must refuse, permissive mode must set has_custom exactly when a strict parse of the serialization is refused.",
+            "Trusted: the frozen model spec/frozen/model2x.json (bootstrapped from the pinned commit, audited by hand, see AUDIT.md) with lenient entries creating no obligation; the lexer states leaf facts only; byte-level JSON is simplejson's.", "DESIGN.md §3.1"),
+    "C17": ("objectmodel", "TLA+ lifecycle model checks that every failing step maps to the documented error family; junk inputs (whole documents, wrong kinds in every inspected member at every nesting level, malformed container members, odd member names, deep nesting) validated by a trace spec; registry/store snapshots around failures",
+            "TLC checks NoInternalEscape on spec/ObjectModel.tla. Arbitrary JSON values as whole input, every type with each of 15 inspected members replaced by each of 9 JSON kinds (with the version named and left to detection, "
+            "strict and permissive), junk inside embedded objects / extensions / members, bundle members and container entries lacking what dispatch inspects, odd custom member names, nesting to 800 levels, and all C02 corruptions "
+            "are parsed / constructed; whatever escapes must be a STIXError, ValueError or TypeError, successes in strict mode must be valid (C02), and failed constructions / registrations / store additions must leave registries and stores unchanged.",
+            "Trusted: the frozen model spec/frozen/model2x.json (bootstrapped from the pinned commit, audited by hand, see AUDIT.md) with lenient entries creating no obligation; the lexer states leaf facts only; byte-level JSON is simplejson's.", "DESIGN.md §3.13"),
 }
 
 NOT_YET = {}
